@@ -107,6 +107,9 @@ def h_paint(c):
     kw['max_velocity'] = maxv
   if mode == 'length_ms':
     kw['onset_length_ms'] = c.params.get('onset_len_ms', 30)
+  blank = c.params.get('blank', False)
+  if blank:
+    kw['add_blank_frame_before_onset'] = True
   if maxv < 127:
     # a note of the window louder than max_velocity is an error; a note
     # OUTSIDE the window is ignored whatever its velocity
@@ -163,6 +166,15 @@ def h_paint(c):
         sf, ef = frames(n['s'], n['e'])
         covering.append(c.And(c.eq(n['p'], p), sf <= f, f < ef))
       on = c.Or(covering)
+      on_v = on
+      if blank:
+        # the frame before an onset (if there is one) is forced silent; no
+        # note painted later can cover it (notes are painted by start time)
+        blanked = []
+        for n in notes:
+          sf, _ = frames(n['s'], n['e'])
+          blanked.append(c.And(c.eq(n['p'], p), sf >= 1, c.eq(sf - 1, f)))
+        on = c.And(on, c.Not(c.Or(blanked)))
       chk_a(c.eq(act[f][p - lo] if c.mode == 'sym' else float(act[f][p - lo]),
                  c.If(on, 1.0, 0.0) if c.mode == 'sym' else
                  (1.0 if on else 0.0)),
@@ -175,12 +187,12 @@ def h_paint(c):
                                          c.And(c.eq(notes[j]['s'], n['s']),
                                                j > i)))
                  for j in range(N) if j != i]
-        last = c.And(covering[i], c.Not(c.Or(later or [False])))
+        last = c.And(covering[i], c.Not(c.Or(later or [False])))  # (on_v)
         expv = c.If(last, n['v'] / maxv, expv)
       chk_v(c.approx(vel[f][p - lo], expv),
             'velocity scaled into (0,1] on active frames, 0 elsewhere')
       if maxv >= 127:
-        chk_v(c.Implies(on, c.And(expv > 0, expv <= 1)), 'velocity in (0,1]')
+        chk_v(c.Implies(on_v, c.And(expv > 0, expv <= 1)), 'velocity in (0,1]')
       # onsets
       want = []
       for n in notes:
@@ -511,6 +523,9 @@ def jobs(tier):
   add('h_paint', N=1, fps='32', frames=5, mode='length_ms', onset_len_ms=62.5,
       delay_ms=31.25, budget=600)
   add('h_paint', N=1, fps='100', frames=4, mode='window', occupancy=0.5)
+  # add_blank_frame_before_onset: only the frame before an onset is silenced
+  add('h_paint', N=1, fps='8', frames=4, mode='window', blank=True)
+  add('h_paint', N=2, fps='16', frames=3, mode='window', blank=True, budget=600)
   add('h_decode', T=3, K=1, fps='50')
   add('h_decode', T=3, K=2, fps='31.25', budget=600)
   add('h_decode', T=2, K=1, fps='16', onsets=True)
